@@ -17,6 +17,24 @@ def tus(tier, seed):
             body += '  bin<%d, %s, %d, %s>(rng);\n' % (dl, C05.CT[nl], dr, C05.CT[nr])
         body += '}\n'
         res.append(dict(name='C03_el_%d' % (i // per), src=body, compiler='g++'))
+    # a built-in integer on either side of a scaled_integer / elastic_integer
+    chdr = os.path.join(os.path.dirname(os.path.abspath(__file__)), 'C01.h')
+    ic = [('i8', -2, 'i32', 2), ('i16', -13, 'i32', 2), ('i32', -16, 'i64', 2), ('u8', -4, 'i32', 2), ('i32', 0, 'u32', 2), ('i16', 3, 'i8', 2),
+          ('i32', -2, 'i32', 10), ('u16', -8, 'u64', 2)]
+    for i in range(0, len(ic), 4):
+        body = '#define SEC_C03I 1\n#include "%s"\nint main(){ install(); Rng rng(seed_from_env()+%d);\n' % (chdr, 900 + i)
+        for (r, e, b, rx) in ic[i:i + 4]:
+            body += '  goi<%s, %d, %s, %d>(rng);\n' % (C01.CT[r], e, C01.CT[b], rx)
+        body += '}\n'
+        res.append(dict(name='C03_int_%d' % (i // 4), src=body, compiler='g++'))
+    ehdr = os.path.join(os.path.dirname(os.path.abspath(__file__)), 'C05.h')
+    ec = [(4, 'i8', 'i32'), (10, 'i32', 'i64'), (8, 'u32', 'i32'), (31, 'i32', 'u32'), (5, 'u8', 'i8'), (40, 'i32', 'i16'), (16, 'u16', 'i64'), (63, 'i64', 'u64')]
+    for i in range(0, len(ec), 4):
+        body = '#define VH_CMP_ONLY 1\n#define VH_ETABLE "C03"\n#include "%s"\nint main(){ install(); Rng rng(seed_from_env()+%d);\n' % (ehdr, 950 + i)
+        for (d, n, b) in ec[i:i + 4]:
+            body += '  cmpi<%d, %s, %s>(rng);\n' % (d, C05.CT[n], C05.CT[b])
+        body += '}\n'
+        res.append(dict(name='C03_eint_%d' % (i // 4), src=body, compiler='g++'))
     # wide_integer comparisons across different widths (single-word vs multi-word, multi vs multi)
     hdr = os.path.join(os.path.dirname(os.path.abspath(__file__)), 'C03w.h')
     pairs = [(200, 300), (300, 200), (129, 200), (200, 200), (150, 1024), (100, 200), (200, 100)]
